@@ -23,7 +23,7 @@ EXTENDS Integers, Sequences, FiniteSets, TLC, SequencesExt, Json, WireBase
 
 CONSTANTS Tier,       \* "quick" | "thorough" (both exported) | "deep" | "full6" | "full7" | "utf" (model only)
           Export,     \* BOOLEAN: print the exported subset as vectors
-          Fams        \* subset of {"hf", "hb", "rt", "short6", "short7", "cor6", "cor7", "heur6", "comp6", "comp7"}: the families of this run
+          Fams        \* subset of {"hf", "hb", "rt", "short6", "short7", "cor6", "cor7", "heur6", "comp6", "comp7", "max6", "max7"}: the families of this run
 
 W6 == INSTANCE Wire
 W7 == INSTANCE Wire7
@@ -216,8 +216,13 @@ Big7 == {[k |-> "rt", v |-> 7, hascl |-> FALSE, cl |-> <<>>,
 \* scratch sizes every exported packet is read with by the real reader
 RCaps(x) == IF x.p.t = "chunks" /\ Len(x.p.data) > 1000 THEN {1400, 1401, 2048} ELSE {1400, 2048}
 
-Z6(p) == IF p.t = "chunks" THEN ToyZ(W6!ZInput(p)) ELSE NoZ
-Z7(p) == IF p.t = "chunks" THEN ToyZ(W7!ZInput(p)) ELSE NoZ
+\* the writers compress into an internal buffer of 2048 bytes; a stream that does not fit is a codec
+\* error, which the writer treats as "do not compress" (content that expands under the codec)
+ZBUF == 2048
+ZCap(z) == IF Len(z.data) > ZBUF THEN NoZ ELSE z
+Z6(p) == IF p.t = "chunks" THEN ZCap(ToyZ(W6!ZInput(p))) ELSE NoZ
+Z7(p) == IF p.t = "chunks" THEN ZCap(ToyZ(W7!ZInput(p))) ELSE NoZ
+ExpandsSome == \E x \in Big6 \cup Big7 : ~Z6(x.p).ok
 D6(b) == IF W6!NeedsDecompression(b) THEN ToyD(Drop(b, 3), CAP - 3) ELSE NoD
 D7(b) == IF W7!NeedsDecompression(b) THEN ToyD(Drop(b, 7), CAP - 7) ELSE NoD
 
@@ -412,6 +417,19 @@ InitComp7 ==
     \/ \E pl \in AreaPlains, n \in {0, 1} :
          Mk([k |-> "rd", v |-> 7, hint |-> "none", bytes |-> PadTo(<<16, 0, n>> \o t \o Stream(pl), L)])
 
+\* datagrams of (near-)maximum length: uncompressed with compressible and codec-expanding filler (the
+\* re-written form takes the other compression branch / does not fit the writer's compression buffer),
+\* and the same body lengths behind the compression flag; every hint
+MaxLens == T3(1394..1400, 1388..1400, 1380..1400)
+InitMax6 ==
+  \E h \in Hints, L \in MaxLens :
+    \/ \E cls \in {0, 2} : Mk([k |-> "rd", v |-> 6, hint |-> h, bytes |-> <<0, 0, 1>> \o BigData(L - 3, cls)])
+    \/ Mk([k |-> "rd", v |-> 6, hint |-> h, bytes |-> <<128, 0, 1>> \o Stream(BigData(L - 3, 0))])
+InitMax7 ==
+  \E L \in MaxLens :
+    \/ \E cls \in {0, 2} : Mk([k |-> "rd", v |-> 7, hint |-> "none", bytes |-> <<0, 0, 1, 9, 8, 7, 6>> \o BigData(L - 7, cls)])
+    \/ Mk([k |-> "rd", v |-> 7, hint |-> "none", bytes |-> <<16, 0, 1, 9, 8, 7, 6>> \o Stream(BigData(L - 7, 0))])
+
 ---------------------------------------------------------------------------
 \* the UTF-8 predicate: the code's comment counts 2650112 valid three-byte strings
 Utf8Count(u) ==
@@ -435,6 +453,8 @@ Init ==
                 \/ "heur6" \in Fams /\ InitHeur6
                 \/ "comp6" \in Fams /\ InitComp6
                 \/ "comp7" \in Fams /\ InitComp7
+                \/ "max6" \in Fams /\ InitMax6
+                \/ "max7" \in Fams /\ InitMax7
 Next == UNCHANGED vars
 
 \* exported subset: everything except the widest byte sweeps, which are thinned
@@ -448,7 +468,7 @@ Law ==
        [] fam = "hb" -> LawHB(cas)
        [] fam = "rt" -> LawRT(cas)
        [] fam = "rd" -> LawRD(cas)
-       [] fam = "utf" -> Utf8Count(0) = 2650112 /\ CompressedSome6 /\ CompressedSome7
+       [] fam = "utf" -> Utf8Count(0) = 2650112 /\ CompressedSome6 /\ CompressedSome7 /\ ExpandsSome
   /\ (Export /\ fam # "utf" /\ Exported(cas)) => PrintT(<<"V", ToJson(cas)>>)
 
 
